@@ -179,8 +179,10 @@ pub fn trajectories_from_public_api(e: &Engine, labels: &[jlabel::Label], durati
     (0..n)
         .map(|i| {
             let mut ms = models.model_stream(i);
-            if i == 1 {
-                ms.stream.apply_additional_half_tone(e.condition.get_additional_half_tone());
+            let h = e.condition.get_additional_half_tone();
+            if i == 1 && h != 0.0 {
+                // (h = 0 is the identity by definition, so nothing is applied then)
+                ms.stream.apply_additional_half_tone(h);
             }
             MlpgAdjust::new(e.condition.get_gv_weight(i), e.condition.get_msd_threshold(i), ms).create(durations)
         })
